@@ -131,7 +131,7 @@ def is_uerr_spec():
 
 def envelope_frame(repo):
     """The reply's encapsulation header is the request's: logix.process answers in a structural copy of request.enip, and neither it nor
-    UCMM.request stores into the copied sender context, command or (outside Register Session) session handle.  Decided on the AST of both."""
+    UCMM.request stores into the copied sender context, command or (outside Register Session) session handle (the header's options word, which the property does not mention, is not constrained).  Decided on the AST of both."""
     import re
     import z3
     from . import frames
@@ -151,11 +151,11 @@ def envelope_frame(repo):
         raise Unsupported('stale contract: UCMM has only %d methods taking `data`' % (len(targets) - 1))
     for rel, qual, root, allowed in targets:
         mod, cls, fdef = repo.find_function(rel, qual)
-        al = frames.aliases(fdef, root, ('sender_context', 'command', 'session_handle', 'options'))
+        al = frames.aliases(fdef, root, ('sender_context', 'command', 'session_handle'))
         if al:
             raise Unsupported('stale contract: %s binds %s to a plain name (%s); stores through it are not tracked' % (qual, root, ', '.join(al)))
         st = frames.stores(fdef)
-        for field in ('sender_context', 'command', 'session_handle', 'options'):
+        for field in ('sender_context', 'command', 'session_handle'):
             hits = [(ln, t) for ln, t in st if re.match(r'^%s\.%s(\.|\[|$)' % (re.escape(root), field), t) or t in (root + '.?',)]
             w = z3.Int('stores_%s_%s' % (qual.replace('.', '_'), field))
             out.append(('%s stores into %s.%s at most %d time(s)' % (qual, root, field, allowed.get(field, 0)), [w == len(hits)], w <= allowed.get(field, 0)))
